@@ -502,6 +502,11 @@ def analyze_security(sec, events, init, table):
                           money(cell(r2, "New ACB/Share")), parse_gain_cell(cell(r2, "Cap. Gain"))[0],
                           led.shares(a2), led.total(), led.cost(a2), Fraction(0) if not is_reg(a2) else None, None)
             missing = [a2 for a2 in led.known() if a2 not in seen and led.shares(a2) != 0]
+            if missing and A.tool_error is not None and ti >= len(rows):
+                # the tool stopped inside this group (its own rejection at one affiliate's copy): the rows shown are
+                # a prefix of a history it did not accept; whether that rejection is justified is C04's question
+                A.features.add("tool_rejected_inside_split_group")
+                return A
             if missing:
                 F.append(Finding("C01", sec, "split for all affiliates not applied to a holder",
                                  missing=sorted(missing), date=str(e.td)))
